@@ -290,7 +290,9 @@ class Table(Vector):
 		"""Return list of available attributes including sanitized column names."""
 		# Use object.__dir__ to get instance attributes, then add column names
 		base_attrs = object.__dir__(self)
-		return set(list(self._build_column_map().keys()) + base_attrs)
+		# building the map marks the columns tame, so the rebuilt map must be kept
+		self._column_map = self._build_column_map()
+		return set(list(self._column_map.keys()) + base_attrs)
 	
 	def column_names(self):
 		"""Return list of column names (original names, not sanitized).
